@@ -89,19 +89,36 @@ def cli(argv, stdin=None):
 
 
 def import_repo():
-    """Make `import eudoxia` resolve to REPO as it is on disk now, silently."""
+    """Make `import eudoxia` resolve to REPO as it is on disk now, silently - but with logging ENABLED as the package configures it
+    (`import eudoxia` sets the root logger to DEBUG, and so does every `eudoxia run`): the records go to a sink that discards them.
+    Code behind `logger.isEnabledFor(...)` or inside log calls runs in a user's process, so it must run here."""
     import logging
-    logging.disable(logging.CRITICAL)
     os.environ.setdefault(GUARD, "1")
     p = str(REPO)
     if p in sys.path:
         sys.path.remove(p)
     sys.path.insert(0, p)
-    import eudoxia  # noqa: F401
+    first = "eudoxia" not in sys.modules
+    so = sys.stdout
+    if first:
+        import io
+        sys.stdout = io.StringIO()          # basicConfig(stream=sys.stdout) must not capture the real stdout
+    try:
+        import eudoxia  # noqa: F401
+    finally:
+        sys.stdout = so
     got = Path(eudoxia.__file__).resolve().parent.parent
     if got != REPO:
         raise MachineryError(f"eudoxia imported from {got}, expected {REPO}")
-    logging.disable(logging.CRITICAL)
+    root = logging.getLogger()
+    if os.environ.get("VERIF_LOGGING", "on") == "off":
+        logging.disable(logging.CRITICAL)
+    else:
+        logging.disable(logging.NOTSET)
+        for h in list(root.handlers):
+            root.removeHandler(h)
+        root.addHandler(logging.NullHandler())
+        root.setLevel(logging.DEBUG)
     return eudoxia
 
 
